@@ -195,7 +195,10 @@ class IRAFStarFinder(StarFinderBase):
                                      mask=mask,
                                      exclude_border=self.exclude_border)
         else:
-            xypos = self.xycoords
+            # the measurement cutouts are centered on the pixels that
+            # contain the input positions (as done by extract_array),
+            # and the centroids are offsets from those pixels
+            xypos = np.ceil(self.xycoords - 0.5).astype(int)
 
         if xypos is None:
             warnings.warn('No sources were found.', NoDetectionsWarning)
